@@ -14,6 +14,12 @@ theorem tie_facts : Nv.Gen.C10.facts = Facts.expected := by decide
 
 theorem tie_cfg_proved : Proved Nv.Gen.C10.cfg := by decide
 
+/-- Go's `int` is 64 bits wide in the harness build (`strconv.IntSize`), so `int(n)` of a length field is never negative -/
+theorem tie_int_bits : Nv.Gen.C10.intBits = 64 := by decide
+
+theorem tie_decode_never_panics (ty : Ty) (bs : Bytes) : decBufP Nv.Gen.C10.intBits ty bs = some (decBuf ty bs) := by
+  rw [tie_int_bits]; exact decode_never_panics ty bs
+
 /-- the stream theorem instantiated at the regenerated configuration -/
 theorem tie_stream_equals_buffer (ty : Ty) (hty : ty.streamable = true) (s : Src) :
     Out.agree (decStream Nv.Gen.C10.cfg ty s).1 (decBuf ty s.flat).1 = true ∧
